@@ -786,8 +786,10 @@ Theorem write_durable : forall s0 p data perm sfx f0 c, wf s0 ->
 Proof.
   intros s0 p data perm sfx f0 c Hwf Hr Hw.
   destruct (path_eq_dec p []) as [->|Hp].
-  - exfalso. revert Hr. unfold write_file, bind, call, result_of. cbn [parent removelast].
-    rewrite step_opendir, walk_nil. cbn. discriminate.
+  - exfalso. revert Hr. unfold write_file, result_of, bind, call, ret, fsync_and_close.
+    cbn [parent removelast]. rewrite step_opendir, walk_nil. cbv beta iota.
+    unfold bind, ret, call. cbv beta iota.
+    destruct (step (SClose f0) (bind_fd s0 f0 (HDir []))) as [s2 r2]. cbn. discriminate.
   - pose proof (write_file_chain s0 (parent p) (base p) data perm sfx f0 Hwf) as [_ [_ Hf]].
     rewrite <- write_file_snoc, <- (path_snoc p Hp) in Hf. rewrite Hr in Hf.
     destruct Hf as [[im Hs] Hl].
